@@ -131,3 +131,42 @@ Proof.
   - vm_compute. reflexivity.
   - vm_compute. reflexivity.
 Qed.
+
+(* ---- the visitors of the online interpreter, re-generated from the Python text on every build (tools/py2coq_onlinevisitor.py,
+   OnlineVisitorGen.v): for every node class, the construction visitor stores an object of the operation class whose generated
+   update / reset refine ustep / bstep / op_reset of the hand model at that node (and rejects the node classes that the model
+   excludes), i.e. the dispatch "node class -> operation class -> method" of OnlineNamed.v is the one of the code ---- *)
+From RV Require Import OnlineVisitorGen OnlineVisitorGenCorrect.
+Theorem C02_generated_monitor : onlinevisitor_gen_statement.
+Proof. exact @onlinevisitor_gen_refines. Qed.
+Print Assumptions C02_generated_monitor.
+
+(* ... and on the specification of C02_named_nonvacuous (a shared sub-formula: the `visited` memo is hit; a bounded operator with
+   units) the generated set_ast / update run end to end: the same five verdicts as the hand monitor, also after the generated reset *)
+Example C02_generated_monitor_nonvacuous :
+  let vidx := fun (v f : string) => if String.eqb v "x" then 0 else 1 in
+  let cval := fun t : string => if String.eqb t "1.0" then Fin 1 else Fin 0 in
+  let bnd := bnd_of US 500 UMS in
+  let tut := fun b e => Some (Z.of_nat (fst (bnd b e)), Z.of_nat (snd (bnd b e))) in
+  let b1 := {| bnum := 1; bden := 2; bunit := Some US |} in
+  let b2 := {| bnum := 1000; bden := 1; bunit := Some UMS |} in
+  let q := NUn u_sprev (NBin (b_pred CGeq) (NVar "x" "") (NConst "1.0")) in
+  let p := NBin b_and (NBin b_since q (NTUn t_once b1 b2 q)) (NUn u_not q) in
+  let w := [[Fin 3; Fin 0; Fin (-1); Fin 4; Fin 2]] in
+  let vobjs := fun (k : nat) (v f : string) => if String.eqb v "x" then Some (sig w 0 k) else None in
+  let hand := snd (nmon_run ExtZArith (fun _ _ => PStd) vidx cval bnd [p] (ndict_init vidx cval bnd [p]) w 0 5) in
+  match gen_set_ast tut [p] with
+  | Some d0 =>
+      match gen_run ExtZArith cval vobjs [p] d0 0 5 with
+      | Some (d1, outs) =>
+          outs = hand /\
+          match gen_reset_forest [p] d1 with
+          | Some d2 => option_map snd (gen_run ExtZArith cval vobjs [p] d2 0 5) = Some hand
+          | None => False
+          end
+      | None => False
+      end
+  | None => False
+  end /\
+  gen_set_ast tut [NBin b_and p (NUn u_alw q)] = None.
+Proof. vm_compute. repeat split; reflexivity. Qed.
